@@ -417,7 +417,22 @@ def _parallel(prog, c, fn):
         except Exception as e:
             why = f"cut index `{cut_txt[:120]}` not understood: {e}"
     else:
-        why = f"row selections {idxs}: no ascending argsort of the log-probabilities followed by a `[cutoff:]` cut"
+        # rows chosen by comparing log-probabilities with a threshold: how many are kept then depends on the data (every row tied
+        # with the threshold goes or stays together), so the count cannot be the requested fraction of the rows for every chain
+        masks = []
+        for t in idxs:
+            try:
+                tn = ast.parse(t, mode="eval").body
+            except SyntaxError:
+                continue
+            if isinstance(tn, ast.Compare) and any(isinstance(x, ast.Name) and x.id == names[1] for x in ast.walk(tn)):
+                masks.append(t)
+        if masks:
+            why = (f"the rows are selected by the threshold test `{masks[0][:140]}`: the number of rows kept is decided by the values (ties at "
+                   f"the threshold are all dropped or all kept), not by the size of the requested fraction")
+        else:
+            raise AnalysisError(f"interval-cut: row selections {idxs} in {qual(c, fn)}: no ascending argsort of the log-probabilities followed "
+                                f"by a `[cutoff:]` cut, and no other recognised way of keeping the top fraction - not decided")
     out.append(struct_ob("interval-cut", qual(c, fn), okc,
                          "the interval must keep the top `interval` fraction of the ascending sort by log-probability: " + why,
                          rel, fn.lineno))
